@@ -476,6 +476,14 @@ pub fn exec(c: &RenderCase, st: &mut Stats) -> Vec<Viol> {
             continue;
         }
         if *name == "miette" {
+            // an error with a known location gets a label: without one the miette report has neither a
+            // source line nor a line / column number
+            if info.line > 0 && !t.contains("[input.yaml:") {
+                out.push(mk(
+                    "miette-no-label",
+                    format!("the error reports {}:{}, the miette report carries no label: {:?}", info.line, info.col, trunc(t)),
+                ));
+            }
             // header `[input.yaml:L:C]` names the reported position
             if let Some(i) = t.find("[input.yaml:")
                 && info.line > 0
